@@ -155,4 +155,16 @@ var Sinks = []Sink{
 	{Name: "FuncCallNonce", Kind: "script-nonce", OmittedWhenEmpty: true, Make: func(ctx context.Context, s string) (context.Context, templ.Component) {
 		return templ.WithNonce(ctx, s), FuncCallComponent()
 	}},
+	// everything else templ writes while a nonce is in the context: style elements of css components,
+	// once handles, the JSON script element without a nonce of its own. Today none of them carries
+	// the nonce (MayBeDropped); if one does, it must carry it as one attribute value.
+	{Name: "CSSComponentCtxNonce", Kind: "context-nonce", MayBeDropped: true, OmittedWhenEmpty: true, Make: func(ctx context.Context, s string) (context.Context, templ.Component) {
+		return templ.WithNonce(ctx, s), CSSComponent("color", "red")
+	}},
+	{Name: "ClassMixedCtxNonce", Kind: "context-nonce", MayBeDropped: true, OmittedWhenEmpty: true, Make: func(ctx context.Context, s string) (context.Context, templ.Component) {
+		return templ.WithNonce(ctx, s), ClassMixed("cls")
+	}},
+	{Name: "EUsesCtxNonce", Kind: "context-nonce", MayBeDropped: true, OmittedWhenEmpty: true, Make: func(ctx context.Context, s string) (context.Context, templ.Component) {
+		return templ.WithNonce(ctx, s), EUses([]EUse{{Kind: "class-direct", A: 0}, {Kind: "once-fixed"}, {Kind: "jsfunc-attr", S: "z"}, {Kind: "class-kv", A: 1, On: true}})
+	}},
 }
